@@ -18,6 +18,7 @@ struct Live {
     hname: String,
     last_fill: usize,
     maxbuf: Option<usize>,
+    ver: u64,
     /// a second handle kept alive (neither used nor dropped) while another stream is worked on
     parked: Option<(cfb::Stream<SharedBuf>, String)>,
 }
@@ -79,13 +80,14 @@ fn setup(hist: &Value, dict: &Dict) -> io::Result<Live> {
         if let Some(f) = hist.get("faults") {
             if f.is_object() {
                 c.fail_class = f["class"].as_str().unwrap_or("").to_string();
+                c.fail_kind = f["kind"].as_str().unwrap_or("").to_string();
                 c.fail_at = f["at"].as_array().map(|a| a.iter().map(|x| x.as_u64().unwrap()).collect()).unwrap_or_default();
             }
         }
         c.chunks = hist["chunks"].as_array().map(|a| a.iter().map(|x| x.as_i64().unwrap()).collect()).unwrap_or_default();
     }
     let maxbuf = hist["maxbuf"].as_u64().map(|n| n as usize);
-    Ok(Live { buf, cf: None, h: None, hname: String::new(), last_fill: 0, maxbuf, parked: None })
+    Ok(Live { buf, cf: None, h: None, hname: String::new(), last_fill: 0, maxbuf, ver: hist["ver"].as_u64().unwrap_or(4), parked: None })
 }
 
 fn exec(live: &mut Live, op: &Value, dict: &Dict) -> Value {
@@ -252,8 +254,16 @@ fn exec(live: &mut Live, op: &Value, dict: &Dict) -> Value {
                         Some("u64max") => u64::MAX,
                         Some("u64max1") => u64::MAX - 1,
                         Some("i64max") => i64::MAX as u64,
+                        // lengths only a version 4 file can hold; issued on version 3 files only
+                        // (a version 4 file would really allocate them)
+                        Some("v3_4g") => 1u64 << 32,
+                        Some("v3_5g") => 5u64 << 30,
+                        Some("v3_16t") => 1u64 << 44,
                         _ => op["n"].as_u64().unwrap(),
                     };
+                    if matches!(op["sym"].as_str(), Some("v3_4g") | Some("v3_5g") | Some("v3_16t")) && live.ver != 3 {
+                        return json!({"k": "err", "e": "NoHandle"});
+                    }
                     res_unit(s.set_len(n))
                 }
                 "flush" => res_unit(s.flush()),
